@@ -206,7 +206,8 @@ class DocstringParser(AbstractDocstringParser):
                 ResultDocstring(
                     type=self._griffe_annotation_to_api_type(result.annotation, griffe_docstring),
                     description=result.description.strip("\n"),
-                    name=result.name or "",
+                    # A name like "*args" or "**kwargs" is no identifier, the stars are decoration
+                    name=(result.name or "").lstrip("*"),
                 )
                 for result in all_returns.value
             ]
